@@ -451,6 +451,11 @@ pub fn exec(op: &Op) -> R {
             unsafe { &*np }.clone_bomb.set(true);
             Ok(())
         }),
+        Op::CloneEvict(o) => world::with(|w| {
+            let np = w.node_ptr(*o).ok_or("cloneevict: object not accessible")?;
+            unsafe { &*np }.clone_evict.set(true);
+            Ok(())
+        }),
         Op::RawRelease(o) => world::with(|w| {
             let np = w.node_ptr(*o).ok_or("rawrelease: object not accessible")?;
             unsafe { &*np }.raw_release.set(true);
@@ -988,7 +993,7 @@ fn op_touches(w: &World, op: &Op) -> Option<Vec<ObjId>> {
         Op::DropWeak(_) => {}
         Op::Script(o, _, _) => v.push(*o),
         Op::CloneDead(_) | Op::CloneFromDead(_) | Op::DropDead(_) | Op::DowngradeOwn(_) | Op::EscapeOwn(_) | Op::CloneLate(_) => {}
-        Op::Shallow(o) | Op::RawRelease(o) | Op::CloneBomb(o) => v.push(*o),
+        Op::Shallow(o) | Op::RawRelease(o) | Op::CloneBomb(o) | Op::CloneEvict(o) => v.push(*o),
     }
     Some(v)
 }
